@@ -43,6 +43,9 @@ ASYNC15 = "fn  old( ){let async=1;let r#try=2;}\n"
 LAZYBAD = ("fn  before( ){ }\nlazy_static! {\n    static ref TABLE: Vec<u32> = {\n        let mut v = Vec::new();\n        v.push(1)\n"
            "        v\n    };\n}\n")
 OVERLONG = "fn  over( ){ let %s = 1; }\n" % ("x" * 130)
+# a cfg_if! body the module resolver parses itself (for a path, never for standard input), holding something the parser
+# recovers from under the default edition; what follows it must be formatted as if the resolver had not looked
+CFGERR = "cfg_if::cfg_if! { if #[cfg(unix)] { async fn in_cfg() {} } }\nfn  after_cfg( ){ assert!(1+1==2); assert!(2+2==4); }\n"
 MACCALL = "fn  mc( ){foo!( a+1 ,b*2 );let v=bar![1+1 ,2];}\n"
 SKIPMAC = '''#![rustfmt::skip::macros(keep,keep2)]
 fn  uses( ){keep!( a ,b );keep2!(1 ,  2);other!( a ,b );}
@@ -60,7 +63,7 @@ def generate(rng, tier):
         else:
             d = "d%d" % i
         dirs.append(d)
-        extra = rng.choice(["", "", "", MACRO, SKIPMAC, ASYNC18, ASYNC18, ASYNC15, "perfile", "perfile", "perfile", "warn", "warn"])
+        extra = rng.choice(["", "", "", MACRO, SKIPMAC, ASYNC18, ASYNC18, ASYNC15, "perfile", "perfile", "perfile", "warn", "warn", CFGERR, CFGERR])
 
         def body(r, extra=extra):
             if extra == "perfile":
